@@ -6,9 +6,10 @@ From Model Require Import Bytes Wire Uri Hdr Message Msg Proxy.
 Import ListNotations.
 Open Scope Z_scope.
 
-(* the wiring of the tree the model describes: false = startProxy passes (defRoute, !NoReceived)
-   for (receivedSupport, defRoute); true = after the repair *)
-Definition current_wiring_fixed : bool := false.
+(* the tree the model describes: which repairs it contains (see Proxy.fixes).  Flags not yet
+   true here are defects the checks still have to exhibit before they are repaired. *)
+Definition current_fixes : fixes :=
+  {| fx_wiring := true; fx_udp_via_listener := true; fx_indialog_invite := false; fx_bracket_host := false |}.
 
 Definition d_listen : dec listen_cfg :=
   dlet a := d_bytes in dlet u := d_int in dlet t := d_int in dlet bs := d_list d_bytes in
@@ -75,7 +76,7 @@ Fixpoint run_events (c : cfg) (ue : list (bytes * Z)) (e : nat) (st : state) (ev
   match evs with
   | [] => []
   | ev :: r =>
-      match proxy_step current_wiring_fixed c (Z.of_nat e * ms) (branch_of e) st ev with
+      match proxy_step current_fixes c (Z.of_nat e * ms) (branch_of e) st ev with
       | Ok (st', outs) =>
           e_list e_output (filter (visible ue) outs)
           ++ e_list (fun n => [e_nat n]) (newly_closed (st_conns st) (st_conns st'))
